@@ -23,7 +23,8 @@ def ops : List (String × Handler) := [
     | _ => badOp),
   ("ed.signer", fun
     | [k, m, hf] => match bytesOfHex k, bytesOfHex m, hf.toNat? with
-      | some k, some m, some hf => match signerSign edLib k m hf with
+      -- hf = 1000·kind + hash id: the harness passes the same HashFunc() value behind different SignerOpts types
+      | some k, some m, some hf => match signerSign edLib k m (hf % 1000) with
         | some (.ok s) => hexOfBytes s
         | some (.error _) => "err"
         | none => "panic"
